@@ -320,6 +320,26 @@ def generate(rng, tier):
             cases.append(("tx.match_inputs", ["5=%s=%s/5=51=-" % (unl, lock), t, "-", "-", "-"]))
         HI("i", "5=51=-/5=51=-", [T1, "u=0." + unl, "l=0." + lock if lock != "-" else "c", "k", "u=0.51"])
     cases.append(("tx.match_outputs", ["5=z63/5=z51/5=z6368", th("OP_IF"), "-", "-", "-"])); cases.append(("tx.match_outputs", ["5=z63/5=z6368", th("OP_IF OP_ENDIF"), "5", "-", "-"]))
+    # SPECIAL FIELD VALUES THE MATCHER ONLY COPIES: null outpoint and each half of it, sequences 0 / 0xffffffff / 0xfffffffe, short and
+    # long txids, outputs of value 0 and 2^64-1, empty scripts - always with criteria that the entries satisfy
+    ops_ = ["r:00:32=4294967295=4294967295", "r:00:32=4294967295=0", "r:00:32=0=4294967295", "r:ff:32=4294967295=4294967295", "r:00:32=4294967294=0",
+            "r:00:31+01=4294967295=4294967294", "01+r:00:31=4294967295=7", "r:00:31=4294967295=0", "r:00:33=4294967295=0", "=0=0", "r:ab:32=1=0", "r:00:32=0=0"]
+    for op_ in ops_:
+        for sat, un, lk in [("5", "51", "-"), ("-", "51", "-"), ("5", "", "-"), ("5", "51", "52"), ("0", "", ""), ("18446744073709551615", "0105", "-"), ("5", "03abcdef", "-")]:
+            it = "%s=%s=%s=%s" % (sat, un, lk, op_)
+            items3 = "7=52=-/" + it + "/" + it.replace(op_, ops_[-2])
+            fin = {"51": "OP_1", "": "", "0105": "OP_DATA=1", "03abcdef": "OP_DATA"}[un] if lk == "-" else {"52": "OP_1 OP_2", "": ""}[lk]
+            for t in ["-", th(fin)] if fin != "" else ["-"]:
+                cases.append(("tx.match_inputs", [items3, t, "-", "-", "-"]))
+                if sat != "-":
+                    cases.append(("tx.match_inputs", [items3, t, sat, sat, sat])); cases.append(("tx.match_inputs", [items3, t, "-", "0", "18446744073709551615"]))
+            HI("i", items3, ["n=0", "c", "x=18446744073709551615", "k", "s=1.5", "v=5", "u=1.51", T1])
+    for v in ["0", "18446744073709551615", "9223372036854775808", "1"]:
+        for sc_, t in [("", "-"), ("51", th("OP_1")), ("00", th("0")), ("6a", th("OP_RETURN")), ("6a+0568656c6c6f", th("OP_RETURN OP_DATA")), ("0105", th("OP_DATA=1"))]:
+            outs = "%s=%s/3=52/%s=%s" % (v, sc_, v, sc_)
+            cases.append(("tx.match_outputs", [outs, t, v, v, v])); cases.append(("tx.match_outputs", [outs, t, "-", "0", "18446744073709551615"]))
+            cases.append(("tx.match_outputs", [outs, t, "-", "-", "-"])); cases.append(("tx.match_outputs", [outs, t, v, "-", "-"]))
+            HI("o", outs, ["v=" + v, "k", "n=" + v, "b", "x=" + v] + ([t.replace(t, "t=" + t)] if t != "-" else []))
     # fixed boundary probes: equality and off-by-one on every bound
     for v in [4, 5, 6]:
         for (e, mn, mx) in [("5", "-", "-"), ("-", "5", "-"), ("-", "-", "5"), ("-", "5", "5"), ("-", "6", "4"), ("5", "5", "5"), ("5", "6", "-"), ("5", "-", "4")]:
